@@ -321,6 +321,12 @@ func ParseDiags(stderr string) []Diag {
 			i = j
 			continue
 		}
+		// a static diagnostic quoting a multi-line lexeme continues on this line
+		if len(out) > 0 && out[len(out)-1].Channel == "static" && strings.Count(out[len(out)-1].Raw, "'")%2 == 1 {
+			out[len(out)-1].Raw += "\n" + ln
+			out[len(out)-1].Msg += "\n" + ln
+			continue
+		}
 		// unknown shape: keep it, try to find a line number inside
 		d := Diag{"unknown", -1, ln, ln}
 		if mm := anyLineRe.FindStringSubmatch(ln); mm != nil {
